@@ -113,8 +113,13 @@ func PerformJoin(
 		}
 	}
 
-	if input.Content == nil {
-		input.Content = map[string]interface{}{}
+	// The content map is the caller's (it may try one server after the other
+	// with it): the join is composed in a copy, so that nothing of this
+	// server's template is left behind in it for the next attempt.
+	callerContent := input.Content
+	input.Content = make(map[string]interface{}, len(callerContent)+2)
+	for k, v := range callerContent {
+		input.Content[k] = v
 	}
 
 	var senderID spec.SenderID
